@@ -86,7 +86,7 @@ func trPrioName(err error) string {
 func init() {
 	register("translated", func(c *Ctx) {
 		for n := 0; n < c.N; n++ {
-			switch n % 13 {
+			switch n % 14 {
 			case 0: // api.GetRange — C18: the slice lies inside the list and holds at most count elements
 				i, cnt, l := trU32(c), trU32(c), trU32(c)
 				s, e := api.GetRange(i, cnt, l)
@@ -309,6 +309,54 @@ func init() {
 				c.Hit("pageguard-" + v)
 				if sz > api.RpcMaxPageSize && v != "toobig" {
 					c.Fail(fmt.Sprintf("%s accepted pageSize %d > RpcMaxPageSize", g.name, sz))
+				}
+			case 13: // accountPool.filterBlocksToCommit — C14: a prefix of at most MaxAccountBlocksInMomentum blocks that does
+				// not end inside a batch of contract sends, and the longest such prefix
+				k := c.R.Intn(40)
+				switch c.R.Intn(4) {
+				case 0:
+					k = 95 + c.R.Intn(12)
+				case 1:
+					k = 100 + c.R.Intn(150)
+				}
+				blocks := make([]*nom.AccountBlock, k)
+				ts := make([]byte, k)
+				pCS := []int{0, 20, 50, 80, 95}[c.R.Intn(5)]
+				for i := range blocks {
+					t := uint64(2 + c.R.Intn(2)*1 + c.R.Intn(2)*2) // 2, 3, 4 or 5
+					if c.R.Intn(100) < pCS {
+						t = nom.BlockTypeContractSend
+					}
+					blocks[i] = &nom.AccountBlock{BlockType: t, Height: uint64(i + 1)}
+					ts[i] = byte('0' + t)
+				}
+				tstr := "-"
+				if k > 0 {
+					tstr = string(ts)
+				}
+				var out []*nom.AccountBlock
+				v := trCall(func() string { out = chain.FilterBlocksToCommitVerif(blocks); return fmt.Sprint(len(out)) })
+				c.Emit("tr-filter %s | %s", tstr, v)
+				c.Hit("filter")
+				if v != "panic" {
+					bad := len(out) > chain.MaxAccountBlocksInMomentum || len(out) > k
+					for i := range out {
+						bad = bad || out[i] != blocks[i]
+					}
+					if len(out) > 0 && out[len(out)-1].BlockType == nom.BlockTypeContractSend {
+						bad = true
+					}
+					// maximal: the next complete batch would not fit (or there is none)
+					j := len(out)
+					for j < k && blocks[j].BlockType == nom.BlockTypeContractSend {
+						j++
+					}
+					if j < k && j+1 <= chain.MaxAccountBlocksInMomentum {
+						bad = true
+					}
+					if bad {
+						c.Fail(fmt.Sprintf("filterBlocksToCommit(%s) committed %d blocks: not the longest prefix of whole batches within %d", tstr, len(out), chain.MaxAccountBlocksInMomentum))
+					}
 				}
 			}
 		}
